@@ -21,7 +21,7 @@ from inline_snapshot import snapshot
 __all__ = [
     "Color", "Perm", "Outer", "DC", "DCD", "DCN", "AT", "PM", "NT", "NTD", "NoCode", "NoCodeBox", "BadCopy", "RaisesEq",
     "Unorderable", "REC", "rec", "ok", "mark", "check_eq", "check_le", "check_ge", "check_in", "G", "set_g",
-    "Is", "outsource", "snapshot", "defaultdict", "ident", "Plain", "EvilEq", "snapshot_alias", "NP", "NPBool", "check_example", "EXAMPLE_SRC", "KW", "Tags", "FTags", "rec_value", "in_thread",
+    "Is", "outsource", "snapshot", "defaultdict", "ident", "Plain", "EvilEq", "snapshot_alias", "NP", "NPBool", "check_example", "EXAMPLE_SRC", "KW", "Tags", "FTags", "rec_value", "in_thread", "BadList",
 ]
 
 defaultdict = collections.defaultdict
@@ -162,6 +162,21 @@ class BadCopy:
 
     def __le__(self, other):
         return NotImplemented
+
+    __hash__ = None
+
+
+class BadList(list):
+    """a subclass of a builtin whose deep copy is not equal to it; it overrides __eq__ only, so list.__ne__ still compares the items"""
+
+    def __init__(self, items=()):
+        super().__init__(items)
+        self.handle = object()  # e.g. a connection, compared by identity
+
+    def __eq__(self, other):
+        if not isinstance(other, BadList):
+            return NotImplemented
+        return self.handle is other.handle and list.__eq__(self, other)
 
     __hash__ = None
 
